@@ -61,12 +61,15 @@ Definition add_pe_gen (fx : bool) (m : mode) (bs name payload : list byte) : out
   al <- align fx m two64 hend fa ;;
   gap <- usub fx m two64 al hend ;;
   bs2 <- (if gap <? 40 then
-            b <- splice_ins fx bs1 hend (zerosN fa) ;;
-            bump_ptrs fx m b sh fa 0 (N.to_nat n)
+            (* pinned code: shift by one FileAlignment (too little room for the 40-byte header when
+               FileAlignment < 40); fixed code: by align(40, FileAlignment), the same for FileAlignment >= 40 *)
+            bump <- (if fx then align fx m two64 40 fa else Ok fa) ;;
+            b <- splice_ins fx bs1 hend (zerosN bump) ;;
+            bump_ptrs fx m b sh bump 0 (N.to_nat n)
           else Ok bs1) ;;
   (* assert!(new_section_name.len() <= 8) *)
-  if 8 <? lenN name then (if fx then Err eother else Panic (slit "assert")) else
-  let hdr0 := name ++ zerosN (40 - lenN name) in
+  if 8 <? flen name then (if fx then Err eother else Panic (slit "assert")) else
+  let hdr0 := name ++ zerosN (40 - flen name) in
   hdr1 <- write_field fx m 4 hdr0 8 1 ;;
   nm1 <- usub fx m two64 n 1 ;;
   t <- umul fx m two64 nm1 40 ;;
@@ -78,12 +81,12 @@ Definition add_pe_gen (fx : bool) (m : mode) (bs name payload : list byte) : out
   s <- uadd fx m two32 pva pvs ;;
   nva <- align fx m two32 s sa ;;
   hdr2 <- write_field fx m 4 hdr1 12 nva ;;
-  plen32 <- ucast fx two32 (lenN payload) ;;
+  plen32 <- ucast fx two32 (flen payload) ;;
   nraw <- align fx m two32 plen32 fa ;;
   hdr3 <- write_field fx m 4 hdr2 16 nraw ;;
   hdr4 <- write_field fx m 4 hdr3 36 64 ;;
   bs3 <- overwrite fx bs2 hend hdr4 ;;
-  noff <- align fx m two64 (lenN bs3) fa ;;
+  noff <- align fx m two64 (flen bs3) fa ;;
   let bs4 := resizeN bs3 noff in
   let bs5 := bs4 ++ resizeN payload nraw in
   noff32 <- ucast fx two32 noff ;;
